@@ -517,6 +517,11 @@ std::string float_mpq_to_string(mpq_class& q) {
   const mpz_ptr n = q.get_num().get_mpz_t();
   const mpz_ptr d = q.get_den().get_mpz_t();
   const unsigned long decimals = mpz_sizeinbase(d, 2) - 1;
+  // The digits are laid out for a non-negative number.
+  const bool negative = (mpz_sgn(n) < 0);
+  if (negative) {
+    mpz_neg(n, n);
+  }
   if (decimals != 0) {
     mpz_ui_pow_ui(d, 5, decimals);
     mpz_mul(n, n, d);
@@ -544,7 +549,7 @@ std::string float_mpq_to_string(mpq_class& q) {
       memset(&buf[2], '0', zeroes);
     }
   }
-  return buf;
+  return negative ? (std::string("-") + buf) : std::string(buf);
 }
 
 } // namespace Checked
